@@ -52,7 +52,7 @@ func sizeTermOf(c *Ctx, fn *ssa.Function, ownerField string, owner *types.Named)
 	if size == nil {
 		return ""
 	}
-	st := &pstate{b: &gcBuilder{p: c.p, e: c.E(), fn: fn, cutIdx: map[*ssa.BasicBlock]int{}, out: &GCNF{Fn: fn}}, env: map[ssa.Value]*Term{}, onPath: map[*ssa.BasicBlock]bool{}, inl: true}
+	st := &pstate{b: &gcBuilder{p: c.p, e: c.E(), fn: fn, cutIdx: map[string]int{}, out: &GCNF{Fn: fn}}, env: map[ssa.Value]*Term{}, onPath: map[string]bool{}, inl: true}
 	recv := nodeL("load", "x", nodeL("fa", ownerField, leaf("p", "0")))
 	t, ok := st.inline(size, []*Term{recv})
 	if !ok {
